@@ -423,12 +423,18 @@ package composite
 
 //@ pred validPR(pr) = pr != nil && pr.revision != nil && pr.parent != nil
 
-// thin contracts of the bookkeeping helpers (their list manipulation is not under contract)
+// the bookkeeping helpers: which list is touched and with which name is under contract (the resulting list contents are not)
 //@ func parentRevision.addChild(pr, apiGroup, kind, name) ()
 //@   requires pr != nil && pr.revision != nil
 //@   // claims are recorded under the child's name relative to the parent (key discipline, see UniformObjectMap.FindGroupKindName)
 //@   requires [C07,C09] ufb_relativeKey(name)
-//@   trusted list bookkeeping (nested slices of names): not under contract; callers rely on the call events only
+//@   safety C13,C08
+//@   // a new entry is opened for exactly the child's group and kind, and the name goes into the entry of that group and kind
+//@   at append#1(s, els) [C08,C09]: len(els) == 1 && els[0].APIGroup == apiGroup && els[0].Kind == kind
+//@   at append#2(s, els) [C08,C09]: len(els) == 1 && els[0] == name
+//@   at append#2(s, els) [C08,C09]: cur(children) != nil
+//@   at append#2(s, els) [C08,C09]: cur(children).APIGroup == apiGroup
+//@   at append#2(s, els) [C08,C09]: cur(children).Kind == kind
 //@   ensures pr.revision == old(pr.revision) && pr.syncResult == old(pr.syncResult) && pr.parent == old(pr.parent)
 
 //@ func parentRevision.removeChild(pr, apiGroup, kind, name) ()
@@ -436,7 +442,12 @@ package composite
 //@   // ControllerRevision): the solvers do not connect the element of the sub-slice / nested map with validPRs in time, so this
 //@   // is relied upon here instead of being re-proved at the two call sites
 //@   requires-assumed pr != nil && pr.revision != nil
-//@   trusted list bookkeeping (nested slices of names): not under contract; callers rely on the call events only
+//@   safety C13,C08
+//@   // the only list that is shortened is the one of the child's group and kind, and what is cut out of it is the child's name
+//@   at append#1(s, els) [C08,C09]: cur(children) != nil
+//@   at append#1(s, els) [C08,C09]: cur(children).APIGroup == apiGroup && cur(children).Kind == kind
+//@   at append#1(s, els) [C08,C09]: cur(pos) >= 0 && cur(pos) < len(cur(children).Names) && cur(children).Names[cur(pos)] == name
+//@   at append#1(s, els) [C08,C09]: len(s) == cur(pos) && len(els) == len(cur(children).Names) - cur(pos) - 1
 //@   ensures pr.revision == old(pr.revision) && pr.syncResult == old(pr.syncResult) && pr.parent == old(pr.parent)
 
 // syncRevisionClaims normalises the claims: a child is claimed by at most one revision (the latest wins), claims for children
